@@ -43,6 +43,7 @@ inductive SOp where
   | signers
   | ext (typ contents : Bytes)
   | sleep (secs : Nat)
+  | sleepMs (ms : Nat)
 
 def parseBool (s : String) : Option Bool :=
   if s == "1" then some true else if s == "0" then some false else none
@@ -60,6 +61,7 @@ def parseSOp (e : String) : Option SOp :=
   | ["S"] => some .signers
   | ["x", t, c] => do pure (.ext (← ofHex t) (← ofHex c))
   | ["z", n] => do pure (.sleep (← n.toNat?))
+  | ["y", n] => do pure (.sleepMs (← n.toNat?))
   | _ => none
 
 def toOp (ids : List Ident) : SOp → Option Op
@@ -74,6 +76,7 @@ def toOp (ids : List Ident) : SOp → Option Op
   | .signers => some .signers
   | .ext t c => some (.extension t c)
   | .sleep _ => none
+  | .sleepMs _ => none
 
 def toCOp (ids : List Ident) : SOp → Option COp
   | .add i l c n cm => do pure (.add (← ids[i]?) false cm l c ((List.range n).map extN))
@@ -87,6 +90,7 @@ def toCOp (ids : List Ident) : SOp → Option COp
   | .signers => some .signers
   | .ext t c => some (.extension t c)
   | .sleep _ => none
+  | .sleepMs _ => none
 
 /-- run a sequence: the clock advances by one tick per op and by `secs * tps` on a sleep -/
 def runSeq (ids : List Ident) (wire : Bool) : KR → Int → List SOp → Option (KR × List String)
@@ -94,6 +98,7 @@ def runSeq (ids : List Ident) (wire : Bool) : KR → Int → List SOp → Option
   | r, t, op :: rest =>
     match op with
     | .sleep n => (runSeq ids wire r (t + n * tps + 1) rest).map fun (r', o) => (r', "z" :: o)
+    | .sleepMs n => (runSeq ids wire r (t + n * (tps / 1000) + 1) rest).map fun (r', o) => (r', "z" :: o)
     | _ =>
       if wire then
         match toCOp ids op with
